@@ -194,7 +194,7 @@ def run_trace(case):
             return util.result(evals=n + 1, nontrivial=0, viol=[util.viol("exception", f"{case}: tracker.update raised {e!r}", case)])
         n += len(X0)
         if not st.alive.all():
-            raise util.HarnessError(f"particle left the interior in {case}")
+            return util.result(evals=n, nontrivial=n, viol=[util.viol(f"displacement:{scheme}", f"{case} step {k}: a particle left the 40x30 interior although the per-step displacement is {case['disp']} cells", case)])
         res = check_step(scheme, list(fo.queries), X0, Y0, st.X, st.Y, dx, dy, float(dt), None)
         if res is not None:
             sig = f"{res[0]}:{scheme}"
